@@ -1,0 +1,40 @@
+//go:build verif
+
+package escape
+
+// Machine-checked contracts (comment-only; build tag `verif`); read by /verif/govc.
+
+// C14: an instruction that accesses memory through one of its operands is
+// classified local (nil rationale) only on the say-so of derefsAreLocal applied
+// to the node of THAT operand; instruction kinds the switch does not know are
+// never local. vnode(ng, v) is a ghost name for "the node of value v in group ng".
+
+//@ property C14 C15
+//@ immutable EscapeGraph.nodes
+
+//@ spec vnode(ng *NodeGroup, v ssa.Value) *Node
+
+//@ func NodeGroup.ValueNode
+//@   property C14
+//@   assumed
+//@   ensures result == vnode(g, variable)
+
+//@ macro consults(v) = (called(derefsAreLocal, g, vnode(g.nodes, v)) && result == retof(derefsAreLocal, g, vnode(g.nodes, v)))
+
+//@ func instructionLocality
+//@   property C14
+//@   requires instr != nil && ref(instr) != 0 && g != nil
+//@   ensures store: istype(instr, *ssa.Store) ==> consults(instr.(*ssa.Store).Addr)
+//@   ensures load: istype(instr, *ssa.UnOp) && instr.(*ssa.UnOp).Op == token.MUL && istype(instr.(*ssa.UnOp).X.Type().Underlying(), *types.Pointer) ==> consults(instr.(*ssa.UnOp).X)
+//@   ensures receive: istype(instr, *ssa.UnOp) && instr.(*ssa.UnOp).Op == token.ARROW && istype(instr.(*ssa.UnOp).X.Type().Underlying(), *types.Chan) ==> consults(instr.(*ssa.UnOp).X)
+//@   ensures send: istype(instr, *ssa.Send) ==> consults(instr.(*ssa.Send).Chan)
+//@   ensures mapupdate: istype(instr, *ssa.MapUpdate) ==> consults(instr.(*ssa.MapUpdate).Map)
+//@   ensures lookup: istype(instr, *ssa.Lookup) ==> consults(instr.(*ssa.Lookup).X)
+//@   ensures typeassert: istype(instr, *ssa.TypeAssert) ==> consults(instr.(*ssa.TypeAssert).X)
+//@   ensures maprange: istype(instr, *ssa.Range) && istype(instr.(*ssa.Range).X.Type().Underlying(), *types.Map) ==> consults(instr.(*ssa.Range).X)
+//@   ensures next: istype(instr, *ssa.Next) && !instr.(*ssa.Next).IsString ==> consults(instr.(*ssa.Next).Iter)
+//@   ghost i int
+//@   ensures select: istype(instr, *ssa.Select) && 0 <= i && i < len(instr.(*ssa.Select).States) && result == nil ==> called(derefsAreLocal, g, vnode(g.nodes, instr.(*ssa.Select).States[i].Chan))
+//@   loop state invariant istype(instr, *ssa.Select) && 0 <= i && i < iter(state) ==> called(derefsAreLocal, g, vnode(g.nodes, instr.(*ssa.Select).States[i].Chan))
+//@   kinds instr world ssa.Instruction only MultiConvert, DebugRef
+//@     ensures unknown_kind_not_local: result != nil
